@@ -19,6 +19,8 @@ var c19Stmts = []string{
 	"t = {}", "local t = {}", "t.f = function() end", "function t.f() end", "function t:m() end", "function t.k.g() end",
 	"local t = {k = {f = function() end}}", "t = {f = function() end, x = 1}", "local c = function() end", "d = function(x) end",
 	"---@class C\nlocal c = {}", "do local a = 1 end", "if a then b = 1 end",
+	"function outer(p)\n  if p then\n  end\n  if not p then\n  end\nend", "do\n  local function hidden1() end\n  hidden1()\nend",
+	"function outer2()\n  local function hidden2() end\n  return hidden2\nend", "if a then\n  function gnested() end\nend",
 }
 
 type c19Decl struct {
@@ -82,6 +84,37 @@ func c19Decls(text string, chunk *luaref.Block, b *luaref.Binding) []c19Decl {
 			}
 		}
 	}
+	// functions declared in nested blocks: must be findable by name (the outline lists them as children, not judged here)
+	var walk func(b *luaref.Block, depth int)
+	walk = func(b *luaref.Block, depth int) {
+		for _, st := range b.Stats {
+			switch s := st.(type) {
+			case *luaref.LocalFuncStat:
+				if depth > 0 {
+					out = append(out, c19Decl{s.Name.Name, s.Name.Span, "nested-local-function", s.Name.Name})
+				}
+				walk(s.Func.Body, depth+1)
+			case *luaref.FuncStat:
+				if depth > 0 && len(s.Path) == 1 && s.Method == nil && !isLocalAt(s.Path[0].Start) && !seenGlobal[s.Path[0].Name] {
+					seenGlobal[s.Path[0].Name] = true
+					out = append(out, c19Decl{s.Path[0].Name, s.Path[0].Span, "nested-global-function", s.Path[0].Name})
+				}
+				walk(s.Func.Body, depth+1)
+			case *luaref.DoStat:
+				walk(s.Body, depth+1)
+			case *luaref.IfStat:
+				for _, bl := range s.Blocks {
+					walk(bl, depth+1)
+				}
+				if s.Else != nil {
+					walk(s.Else, depth+1)
+				}
+			case *luaref.WhileStat:
+				walk(s.Body, depth+1)
+			}
+		}
+	}
+	walk(chunk, 0)
 	return out
 }
 
@@ -164,7 +197,7 @@ func c19Space(L int) *core.Space {
 				if !rangeWellFormed(text, f.Range) || !rangeWellFormed(text, f.SelectionRange) {
 					r.Outcome("malformed-range")
 					coreS := fmt.Sprintf("outline-entry-range-outside-document | %s %s", f.Name, f.Range)
-					r.Fail(name, i, "outline-entry-range-outside-document", coreS+"|"+text, map[string]interface{}{"failure_core": coreS, "m.lua": text, "entry": f.Name, "range": f.Range.String()})
+					r.Fail(name, i, "outline-entry-range-outside-document", coreS, map[string]interface{}{"failure_core": coreS, "m.lua": text, "entry": f.Name, "range": f.Range.String()})
 				}
 			}
 			for _, d := range decls {
@@ -176,13 +209,13 @@ func c19Space(L int) *core.Space {
 						found = true
 					}
 				}
-				if !found {
+				if !found && !strings.HasPrefix(d.kind, "nested-") {
 					var names []string
 					for _, f := range flat {
 						names = append(names, f.Name+"@"+f.Range.String())
 					}
 					fail("declaration-missing-from-outline:"+d.kind, d, map[string]interface{}{"outline": names})
-				} else {
+				} else if found {
 					r.Outcome("in-outline:" + d.kind)
 				}
 				if d.query != "" {
@@ -204,6 +237,56 @@ func c19Space(L int) *core.Space {
 						fail("workspace-symbol-does-not-find-declaration:"+d.kind, d, map[string]interface{}{"query": d.query, "answer": got})
 					} else {
 						r.Outcome("found-by-name:" + d.kind)
+					}
+				}
+			}
+			// the outline follows the unsaved buffer: a declaration typed at the top (didChange, no save) must appear,
+			// and every earlier declaration must be listed one line further down
+			buf := "local typedNow = 1\n" + text
+			s.ChangeFull("m.lua", buf)
+			if syms2, err := s.DocSymbols("m.lua"); err == nil {
+				r.Transitions += 2
+				var flat2 []drv.DocSymbol
+				flattenSyms(syms2, &flat2)
+				p2 := luaref.Parse(buf)
+				if p2.Err == nil {
+					var oldTop []c19Decl
+					for _, od := range decls {
+						if !strings.HasPrefix(od.kind, "nested-") {
+							oldTop = append(oldTop, od)
+						}
+					}
+					k := -1
+					for _, d := range c19Decls(buf, p2.Chunk, luaref.Bind(p2.Chunk)) {
+						if strings.HasPrefix(d.kind, "nested-") {
+							continue
+						}
+						k++
+						dr := rng(buf, d.sp)
+						found := false
+						for _, f := range flat2 {
+							if rangeContains(f.Range, dr) && strings.Contains(f.Name, d.name) {
+								found = true
+							}
+						}
+						// only declarations that the saved-file outline listed correctly are required after the edit
+						// (the k-th declaration of the buffer is the (k-1)-th of the saved text)
+						wasOK := k == 0
+						if k >= 1 && k-1 < len(oldTop) && oldTop[k-1].name == d.name {
+							odr := rng(text, oldTop[k-1].sp)
+							for _, f := range flat {
+								if rangeContains(f.Range, odr) && strings.Contains(f.Name, d.name) {
+									wasOK = true
+								}
+							}
+						}
+						if wasOK && !found {
+							sig := "outline-does-not-follow-unsaved-edit:" + d.kind
+							coreS := fmt.Sprintf("%s | %s", sig, lineAt(buf, dr))
+							r.Outcome(sig)
+							r.Fail(name, i, sig, coreS, map[string]interface{}{"failure_core": coreS, "buffer": buf, "declaration": fmt.Sprintf("%s %s at %s", d.kind, d.name, dr)})
+							break
+						}
 					}
 				}
 			}
